@@ -226,7 +226,7 @@ class C07(core.Prop):
             kinds += ['cross_with_cond']
         kinds += ['agg_group', 'ungrouped', 'ungrouped2']
         if stmt[0] == 'set':
-            kinds += ['set_schema']
+            kinds += ['set_schema', 'set_prefix', 'set_prefix']
         k = rng.choice(kinds)
         x = rng.choice(ints)
         if k == 'agg_where':
@@ -275,15 +275,48 @@ class C07(core.Prop):
             q['grp'] = [x]
             q['sel'] = [x, ['alias', ['agg', 'count', x], 'n'], rng.choice(others)]
             q['post'] = None
+        elif k == 'set_prefix':
+            # one operand's schema is a strict prefix of the other's
+            side = rng.choice([2, 3])
+            branch = stmt[side]
+            if branch[0] != 'query' or not branch[2].get('sel') or branch[2].get('grp'):
+                return None
+            extra = [f for f, _ in dslgen.columns_of(branch[1]) if f not in branch[2]['sel']]
+            if not extra:
+                return None
+            branch[2]['sel'] = branch[2]['sel'] + [rng.choice(extra)]
         elif k == 'set_schema':
             stmt[3] = ['query', A, {'sel': [['col', 'A', 'id'], ['col', 'A', 's']], 'pre': None, 'grp': [], 'post': None, 'ord': [], 'rows': None}]
         else:
             return None
         return stmt
 
+    def corpus(self):
+        x, y = ['col', 'A', 'x'], ['col', 'A', 'y']
+        q = lambda sel, grp: ['query', A, {'sel': sel, 'pre': None, 'grp': grp, 'post': None, 'ord': [], 'rows': None}]
+        out = []
+        for op in ('==', '<', '>', '>=', '!='):
+            c = ['bin', op, x, ['lit', 1]]
+            # grouping by a comparison that is also selected (bare and aliased) is conforming
+            out.append({'statement': q([c, ['alias', ['agg', 'count', y], 'n']], [c]), 'mutant': False})
+            out.append({'statement': q([['alias', c, 'flag'], ['alias', ['agg', 'sum', y], 'n']], [c]), 'mutant': False})
+        # set operations need equal schemas: a strict prefix on either side is not enough
+        two = ['query', A, {'sel': [['col', 'A', 'id'], ['col', 'A', 'x']], 'pre': None, 'grp': [], 'post': None, 'ord': [], 'rows': None}]
+        one = ['query', A, {'sel': [['col', 'A', 'id']], 'pre': None, 'grp': [], 'post': None, 'ord': [], 'rows': None}]
+        for kind in ('union', 'intersection', 'difference'):
+            out.append({'statement': ['set', kind, one, two], 'mutant': True})
+            out.append({'statement': ['set', kind, two, one], 'mutant': True})
+        return out
+
     def cases(self, rng, tier):
         n = 300 if tier == 'quick' else 3000
         out = []
+        for _ in range(max(10, n // 30)):
+            # grouped by a (possibly aliased) comparison that is also selected
+            cols = [f for f, k in dslgen.columns_of(A) if k == 'int']
+            c = ['bin', rng.choice(dslgen.CMP), rng.choice(cols), rng.choice(cols + [['lit', rng.randint(-1, 3)]])]
+            sel = [c if rng.random() < 0.5 else ['alias', c, 'flag'], ['alias', ['agg', rng.choice(['count', 'sum', 'max']), rng.choice(cols)], 'n']]
+            out.append({'statement': ['query', A, {'sel': sel, 'pre': None, 'grp': [c], 'post': None, 'ord': [], 'rows': None}], 'mutant': False})
         while len(out) < n:
             stmt = self._conforming(rng)
             if rng.random() < 0.5:
